@@ -605,7 +605,11 @@ sxround_dur_cocl(dt_sexy_t t, struct dt_dtdur_s dur, bool nextp)
 		return t;
 	}
 	/* unpack t */
-	with (unsigned int diff = t % (dt_sexy_t)sdur) {
+	/* T may lie before the epoch, take the remainder towards -infinity */
+	with (dt_ssexy_t diff = (dt_ssexy_t)t % sdur) {
+		if (diff < 0) {
+			diff += sdur;
+		}
 		if (!diff && !nextp) {
 			/* do nothing, i.e. really nothing,
 			 * in particular, don't set the slots again in the
